@@ -665,7 +665,7 @@ theorem failed_command_inert (c : Ctx) (s : State) (conn ref : Nat) (m : Bool) (
     · rfl
     · exact getDb_setSession _ _ _ r
   case ping o => cases o <;> (intro r; rfl)
-  case dbsize => simp only [runCmd]; intro r; split <;> rfl
+  case dbsize => simp only [runCmd]; intro r; trivial
   all_goals
     simp only [runCmd] at h ⊢
     first
@@ -1371,7 +1371,7 @@ theorem runCmd_inv (c : Ctx) (s : State) (conn ref : Nat) (m : Bool) (cmd : Cmd)
     · exact hs
     · exact kinv_of_getDb_eq s _ hs (fun r => getDb_setSession _ _ _ r)
   case ping o => cases o <;> exact hs
-  case dbsize => simp only [runCmd]; split <;> exact hs
+  case dbsize => simp only [runCmd]; exact hs
   all_goals
     simp only [runCmd]
     first
